@@ -14,20 +14,23 @@
  * backward scan from s: -1 <= i <= s  and no present key byte in (i, s] */
 static uint8_t *o; static uint8_t Q, P; static int G_s;
 static inline _Bool absent_(uint8_t b);
+/* IV(f): the loop's induction variable as identified by ll2c (loaded in the header, stored in the latch) - robust against renaming; read
+ * with the signedness of its C++ type width: 64-bit counters are int64/uint64 with values in [-1, 256], narrower ones are unsigned */
+#define IV(f) (sizeof(VERIF_LOOP_IV_##f##_for_2econd) == 8 ? (int64_t)VERIF_LOOP_IV_##f##_for_2econd : (int64_t)(uint64_t)VERIF_LOOP_IV_##f##_for_2econd)
 #define FWD(i) ((int64_t)(i) >= G_s && (int64_t)(i) <= 256 && (!((int)Q >= G_s && (int64_t)Q < (int64_t)(i)) || absent_(Q)) && (!((int)P >= G_s && (int64_t)P < (int64_t)(i)) || absent_(P)))
 #define BWD(i) ((int64_t)(i) <= G_s && (int64_t)(i) >= -1 && (!((int)Q <= G_s && (int64_t)Q > (int64_t)(i)) || absent_(Q)) && (!((int)P <= G_s && (int64_t)P > (int64_t)(i)) || absent_(P)))
-#define VERIF_LOOP_HEAD_BEGIN_for_2econd VERIF_CUT_HEAD(BEGIN_for_2econd, FWD(m_i), 256 - (int64_t)m_i)
-#define VERIF_LOOP_BACK_BEGIN_for_2econd VERIF_CUT_BACK(BEGIN_for_2econd, FWD(m_i), 256 - (int64_t)m_i)
-#define VERIF_LOOP_HEAD_NEXT_for_2econd VERIF_CUT_HEAD(NEXT_for_2econd, FWD(m_i), 256 - (int64_t)m_i)
-#define VERIF_LOOP_BACK_NEXT_for_2econd VERIF_CUT_BACK(NEXT_for_2econd, FWD(m_i), 256 - (int64_t)m_i)
-#define VERIF_LOOP_HEAD_GTE_for_2econd VERIF_CUT_HEAD(GTE_for_2econd, FWD(m_i), 256 - (int64_t)m_i)
-#define VERIF_LOOP_BACK_GTE_for_2econd VERIF_CUT_BACK(GTE_for_2econd, FWD(m_i), 256 - (int64_t)m_i)
-#define VERIF_LOOP_HEAD_LAST_for_2econd VERIF_CUT_HEAD(LAST_for_2econd, BWD(m_i), (int64_t)m_i + 1)
-#define VERIF_LOOP_BACK_LAST_for_2econd VERIF_CUT_BACK(LAST_for_2econd, BWD(m_i), (int64_t)m_i + 1)
-#define VERIF_LOOP_HEAD_PRIOR_for_2econd VERIF_CUT_HEAD(PRIOR_for_2econd, BWD(m_i), (int64_t)m_i + 1)
-#define VERIF_LOOP_BACK_PRIOR_for_2econd VERIF_CUT_BACK(PRIOR_for_2econd, BWD(m_i), (int64_t)m_i + 1)
-#define VERIF_LOOP_HEAD_LTE_for_2econd VERIF_CUT_HEAD(LTE_for_2econd, BWD(m_i), (int64_t)m_i + 1)
-#define VERIF_LOOP_BACK_LTE_for_2econd VERIF_CUT_BACK(LTE_for_2econd, BWD(m_i), (int64_t)m_i + 1)
+#define VERIF_LOOP_HEAD_BEGIN_for_2econd VERIF_CUT_HEAD(BEGIN_for_2econd, FWD(IV(BEGIN)), 256 - IV(BEGIN))
+#define VERIF_LOOP_BACK_BEGIN_for_2econd VERIF_CUT_BACK(BEGIN_for_2econd, FWD(IV(BEGIN)), 256 - IV(BEGIN))
+#define VERIF_LOOP_HEAD_NEXT_for_2econd VERIF_CUT_HEAD(NEXT_for_2econd, FWD(IV(NEXT)), 256 - IV(NEXT))
+#define VERIF_LOOP_BACK_NEXT_for_2econd VERIF_CUT_BACK(NEXT_for_2econd, FWD(IV(NEXT)), 256 - IV(NEXT))
+#define VERIF_LOOP_HEAD_GTE_for_2econd VERIF_CUT_HEAD(GTE_for_2econd, FWD(IV(GTE)), 256 - IV(GTE))
+#define VERIF_LOOP_BACK_GTE_for_2econd VERIF_CUT_BACK(GTE_for_2econd, FWD(IV(GTE)), 256 - IV(GTE))
+#define VERIF_LOOP_HEAD_LAST_for_2econd VERIF_CUT_HEAD(LAST_for_2econd, BWD(IV(LAST)), IV(LAST) + 1)
+#define VERIF_LOOP_BACK_LAST_for_2econd VERIF_CUT_BACK(LAST_for_2econd, BWD(IV(LAST)), IV(LAST) + 1)
+#define VERIF_LOOP_HEAD_PRIOR_for_2econd VERIF_CUT_HEAD(PRIOR_for_2econd, BWD(IV(PRIOR)), IV(PRIOR) + 1)
+#define VERIF_LOOP_BACK_PRIOR_for_2econd VERIF_CUT_BACK(PRIOR_for_2econd, BWD(IV(PRIOR)), IV(PRIOR) + 1)
+#define VERIF_LOOP_HEAD_LTE_for_2econd VERIF_CUT_HEAD(LTE_for_2econd, BWD(IV(LTE)), IV(LTE) + 1)
+#define VERIF_LOOP_BACK_LTE_for_2econd VERIF_CUT_BACK(LTE_for_2econd, BWD(IV(LTE)), IV(LTE) + 1)
 #endif
 #include "x_types.h"
 #include "x_body.h"
